@@ -1,6 +1,6 @@
 SPECIFICATION Spec
 CONSTANTS
-  NAMES = {"n1", "n2"}
+  NAMES = {"n1"}
   PEERS = {"p1", "p2"}
   Thr = 1
   CheckMode = "once"
@@ -8,12 +8,12 @@ CONSTANTS
   RenewMode = "restart"
   W = 2
   AccN = 6
-  MaxArr = 3
+  MaxArr = 2
   MaxT = 1
   REPS = {1}
-  Garbage = FALSE
+  Garbage = TRUE
   Staged = FALSE
-  PsFree = TRUE
+  PsFree = FALSE
   InitSets = {{"p1", "p2"}}
 VIEW View
 INVARIANTS InvAtMostOne InvIsLatest InvValidUnexpiredMember InvNoFalseAlarm InvAlertOnce InvReported InvForgotten InvUsed InvObserverSane
